@@ -391,6 +391,58 @@ func TestVerifC01(t *testing.T) {
 					Replay: map[string]any{"forgery": f.name, "delivered_before": f.opened, "counter": f.ctr}})
 			}
 		}
+		// (D'') push first, log afterwards: the fellow member relays a GENUINE message of the sender as a push
+		// payload (payload and signature are the sender's; that it opens is not the point) but lets it name the
+		// identifier of a log entry of its own making - the same counter, the sender's message key, a payload
+		// the sender never signed.  Whatever the push path keeps, the forged entry must still be rejected when
+		// it arrives through the log, and the genuine entry must still open to its payload afterwards
+		{
+			for i, k := range []int{1, 2, 3} {
+				envK := &protocoltypes.MessageEnvelope{}
+				_ = proto.Unmarshal(envs[k], envK)
+				_, hdrK, err := att.OpenEnvelopeHeaders(envs[k], g)
+				if err != nil {
+					t.Fatal(err)
+				}
+				for j, fsig := range [][]byte{nil, hdrK.Sig, asig(forgedPayload)} {
+					var opened []int
+					if i == 2 {
+						opened = []int{1}
+					}
+					r, _ := freshRecv(opened...)
+					forged := c01craft(g, sdevRaw, uint64(k), fsig, keyAt(uint64(k)), forgedPayload)
+					oos := &protocoltypes.OutOfStoreMessage{Cid: vCID(forged).Bytes(), DevicePk: sdevRaw, Counter: uint64(k), Sig: hdrK.Sig,
+						EncryptedPayload: envK.Message}
+					ok, note, sig := true, "", ""
+					func() {
+						defer func() {
+							if x := recover(); x != nil {
+								ok, note, sig = false, fmt.Sprintf("panic: %v", x), "panic while opening an envelope"
+							}
+						}()
+						clear, _, errPush := r.OutOfStoreMessageOpen(ctx, oos, gpk)
+						if errPush == nil && payloadID(clear) != uint64(100000+k) {
+							ok, sig = false, "forged envelope accepted"
+							note = fmt.Sprintf("genuine message %d relayed as a push opens to another payload (id %d)", k, payloadID(clear))
+							return
+						}
+						x := c01try(ctx, r, g, nil, forged, vCID(forged))
+						if x.ok {
+							ok, sig = false, "forged envelope accepted"
+							note = fmt.Sprintf("after genuine message %d was relayed as a push that names the identifier of a forged log entry (push opened: %v), that entry - a payload the sender never signed, sealed by a fellow member under the key of counter %d - is delivered through the log and attributed to the sender", k, errPush == nil, k)
+							return
+						}
+						y := c01try(ctx, r, g, nil, envs[k], vCID(envs[k]))
+						if !y.ok || payloadID(y.payload) != uint64(100000+k) {
+							ok, sig = false, "honest envelope no longer opens"
+							note = fmt.Sprintf("after a push relay of genuine message %d under a foreign identifier and the rejected forged entry, the genuine entry no longer opens through the log (%s)", k, y.err)
+						}
+					}()
+					out.Emit(vharness.Case{Kind: "member-forgery-push-then-log", Key: fmt.Sprintf("push-then-log-%d-%d-%d", round, k, j), Nontrivial: true, OracleOK: ok, Note: note, Sig: sig,
+						Replay: map[string]any{"genuine_message_relayed_as_push": k, "push_names_identifier_of": "forged entry, same counter, sender's message key", "forged_entry_signature": []string{"none", "the genuine message's", "the attacker's"}[j], "delivered_before": opened}})
+				}
+			}
+		}
 	}
 	// (E) a forged envelope that claims to come from the very device that opens it: the opener R has
 	// sealed messages itself (so it still holds their keys), a fellow member who registered R's chain
